@@ -15,6 +15,7 @@ import (
 	"encoding/json"
 	"errors"
 	"fmt"
+	"math"
 	"os"
 	"strings"
 	"testing"
@@ -194,7 +195,8 @@ func TestKeys(t *testing.T) {
 	// cost handling of GenerateFromPassword: below MinCost -> DefaultCost, above MaxCost -> InvalidCostError
 	for _, cc := range []struct {
 		cost, eff int
-	}{{0, 10}, {3, 10}, {-1, 10}, {32, -1}, {100, -1}} {
+	}{{0, 10}, {3, 10}, {-1, 10}, {math.MinInt, 10}, {math.MinInt + 1, 10}, {-1 << 32, 10}, {4, 4}, {32, -1}, {100, -1},
+		{math.MaxInt32, -1}, {1 << 32, -1}, {1<<32 + 4, -1}, {math.MaxInt - 1, -1}, {math.MaxInt, -1}} { // int-range ends and the uint32(cost) wrap (2^32+4 must not act as 4)
 		g := gGenerate([]byte("pw"), cc.cost)
 		nDefaultCost++
 		out.Case(fmt.Sprint("gencost|", cc.cost))
